@@ -217,6 +217,9 @@ func jpCells(prog *Program, evaluators []string) ([]jpCell, error) {
 	return cells, nil
 }
 
+// fpWithCtx: fingerprint lines carry the side of the `last fragment?` test they sit on (second sibling table).
+var fpWithCtx bool
+
 // arithFingerprint: the statements of a cell that decide WHICH indexes are
 // selected: assignments to int variables, for-loop headers and conditions
 // over int variables / LEN / constants only.
@@ -262,14 +265,46 @@ func arithFingerprint(prog *Program, pk *packages.Package, node ast.Node, contVa
 		return ok && seen
 	}
 	set := map[string]int{}
+	// which side of the `last fragment?` test a statement sits on is part of what it means: a clamp that
+	// only the last-fragment branch applies leaves the inner-fragment branch without it
+	ctx := map[ast.Node]string{}
+	ast.Inspect(node, func(n ast.Node) bool {
+		is, ok := n.(*ast.IfStmt)
+		if !ok || !isLastTest(is.Cond) {
+			return true
+		}
+		mark := func(root ast.Node, tag string) {
+			if root == nil {
+				return
+			}
+			ast.Inspect(root, func(k ast.Node) bool {
+				switch k.(type) {
+				case *ast.AssignStmt, *ast.IfStmt, *ast.ForStmt, *ast.IncDecStmt, *ast.BranchStmt:
+					if ctx[k] == "" {
+						ctx[k] = tag
+					}
+				}
+				return true
+			})
+		}
+		if fpWithCtx {
+			mark(is.Body, "[last] ")
+			mark(is.Else, "[inner] ")
+		}
+		return true
+	})
+	cur := ""
 	add := func(prefix string, n any) {
-		set[prefix+normaliseSkeleton(printNode(prog.Fset, n), contVar)]++
+		set[cur+prefix+normaliseSkeleton(printNode(prog.Fset, n), contVar)]++
 	}
 	constInt := func(e ast.Expr) bool {
 		tv, ok := info.Types[e]
 		return ok && tv.Value != nil
 	}
 	ast.Inspect(node, func(n ast.Node) bool {
+		if n != nil {
+			cur = ctx[n]
+		}
 		switch x := n.(type) {
 		case *ast.AssignStmt:
 			if len(x.Lhs) == 1 && len(x.Rhs) == 1 {
@@ -311,7 +346,7 @@ func arithFingerprint(prog *Program, pk *packages.Package, node ast.Node, contVa
 			}
 		case *ast.BranchStmt:
 			if x.Label != nil {
-				set[x.Tok.String()+" "+x.Label.Name]++
+				set[cur+x.Tok.String()+" "+x.Label.Name]++
 			}
 		case *ast.ForStmt:
 			h := "for "
@@ -326,7 +361,7 @@ func arithFingerprint(prog *Program, pk *packages.Package, node ast.Node, contVa
 			if x.Post != nil {
 				h += normaliseSkeleton(printNode(prog.Fset, x.Post), contVar)
 			}
-			set[h]++
+			set[cur+h]++
 		case *ast.IfStmt:
 			if intOnly(x.Cond) && !isLastTest(x.Cond) {
 				add("if ", x.Cond)
@@ -339,7 +374,7 @@ func arithFingerprint(prog *Program, pk *packages.Package, node ast.Node, contVa
 		if k == "LEN := LEN" || k == "" {
 			continue
 		}
-		if n > 1 && !strings.HasPrefix(k, "push ") && !strings.HasPrefix(k, "for ") {
+		if bare := strings.TrimPrefix(strings.TrimPrefix(k, "[last] "), "[inner] "); n > 1 && !strings.HasPrefix(bare, "push ") && !strings.HasPrefix(bare, "for ") {
 			k = fmt.Sprintf("%s  (x%d)", k, n) // a multiset: a test added next to an equal one is a change
 		}
 		out = append(out, k)
